@@ -564,7 +564,9 @@ func (r *Rig) gateObs() string {
 	for id := range ready {
 		ids = append(ids, id)
 	}
-	sort.Slice(ids, func(i, j int) bool { return idx[ids[i]] < idx[ids[j]] || (idx[ids[i]] == idx[ids[j]] && ids[i] < ids[j]) })
+	sort.Slice(ids, func(i, j int) bool {
+		return idx[ids[i]] < idx[ids[j]] || (idx[ids[i]] == idx[ids[j]] && ids[i] < ids[j])
+	})
 	parts := make([]string, 0)
 	for _, id := range ids {
 		parts = append(parts, fmt.Sprintf("%d:%d:%s", idNum(id), idx[id], b01(ready[id])))
